@@ -125,51 +125,234 @@ theorem dedupPaths_nodup (l : List (List Bytes)) : (dedupPaths l).Nodup := by
   exact foldl_dedup_nodup l [] List.nodup_nil
 
 /-- the whole analysis of a query returns no path twice and no empty path -/
-theorem addrTop_nodup (t : TopOp) : (addrTop t).Nodup := by
-  cases t with
-  | path p =>
-    cases p with
-    | mk a b c d ops e =>
-      unfold addrTop addrPath
-      cases ops with
-      | nil => exact List.nodup_nil
-      | cons o os => exact dedupPaths_nodup _
-  | logic l => exact dedupPaths_nodup _
+theorem addrTop_nodup (t : TopOp) : (addrTop t).Nodup := dedupPaths_nodup _
 
-theorem addrTop_nonempty (t : TopOp) : ∀ x ∈ addrTop t, x ≠ [] := by
-  cases t with
-  | path p =>
-    cases p with
-    | mk a b c d ops e =>
-      unfold addrTop addrPath
-      cases ops with
-      | nil => intro x hx; cases hx
-      | cons o os => intro x hx; exact (dedupPaths_from _ x hx).2
-  | logic l => intro x hx; exact (dedupPaths_from _ x hx).2
+theorem addrTop_nonempty (t : TopOp) : ∀ x ∈ addrTop t, x ≠ [] := fun x hx => (dedupPaths_from _ x hx).2
 
-/-- the chain of the path itself (its leading keys) is covered by what the analysis of a `$` path returns -/
-theorem addrParts_idents_mem : ∀ (ops : List PathPart) (idents : List Bytes),
-    ∃ ks, idents ++ ks ∈ addrParts idents ops := by
+/-- every returned path is one of the chains collected from the query -/
+theorem addrTop_from (t : TopOp) : ∀ x ∈ addrTop t, ∃ b, (x, b) ∈ apTop t := by
+  intro x hx
+  have := (dedupPaths_from _ x hx).1
+  obtain ⟨c, hc, rfl⟩ := List.mem_map.mp this
+  exact ⟨c.2, hc⟩
+
+/-- every collected chain is covered: equal to, or a prefix of, a returned path -/
+theorem addrTop_covers (t : TopOp) (c : List Bytes × Bool) (hc : c ∈ apTop t) (hne : c.1 ≠ []) : Covered c.1 (addrTop t) :=
+  dedupPaths_covers _ c.1 (List.mem_map.mpr ⟨c, hc, rfl⟩) hne
+
+/-- the keys of a path, in order -/
+def identsOf : List PathPart → List Bytes
+  | [] => []
+  | .ident name _ _ :: rest => name :: identsOf rest
+  | _ :: rest => identsOf rest
+
+/-- the chain of the path itself is collected, marked with the path's root -/
+theorem apParts_idents_mem : ∀ (ops : List PathPart) (root : Bool) (idents : List Bytes),
+    (idents ++ identsOf ops, root) ∈ apParts root idents ops := by
   intro ops
   induction ops with
-  | nil => intro idents; exact ⟨[], by simp [addrParts]⟩
+  | nil => intro root idents; simp [apParts, identsOf]
+  | cons o os ih =>
+    intro root idents
+    cases o with
+    | ident name a b =>
+      have := ih root (idents ++ [name])
+      simpa [apParts, identsOf, List.append_assoc] using this
+    | filter lo a =>
+      simp only [apParts, identsOf]; exact List.mem_append_right _ (ih root idents)
+    | func a b params c =>
+      simp only [apParts, identsOf]; exact List.mem_append_right _ (ih root idents)
+
+/-! ### every `$` path of the query, wherever it stands — the query itself, an operand of a group, an argument (path or group) of a
+    function, inside a filter condition at any depth — has its chain of keys covered by what AddressedPaths returns -/
+mutual
+def dcPath : PathOp → List (List Bytes)
+  | .mk _ root _ _ ops _ => (if root && !ops.isEmpty then [identsOf ops] else []) ++ dcParts ops
+def dcParts : List PathPart → List (List Bytes)
+  | [] => []
+  | .ident _ _ _ :: rest => dcParts rest
+  | .filter lo _ :: rest => dcLogic lo ++ dcParts rest
+  | .func _ _ params _ :: rest => dcParams params ++ dcParts rest
+def dcParams : List Param → List (List Bytes)
+  | [] => []
+  | .path p :: rest => dcPath p ++ dcParams rest
+  | .logic l :: rest => dcLogic l ++ dcParams rest
+  | _ :: rest => dcParams rest
+def dcLogic : LogicOp → List (List Bytes)
+  | .mk _ _ _ ops _ => dcLParts ops
+def dcLParts : List LogicPart → List (List Bytes)
+  | [] => []
+  | .path p :: rest => dcPath p ++ dcLParts rest
+  | .logic l :: rest => dcLogic l ++ dcLParts rest
+end
+
+def dcTop : TopOp → List (List Bytes)
+  | .path p => dcPath p
+  | .logic l => dcLogic l
+
+theorem filter_keeps_rooted (idents : List Bytes) (root : Bool) (l : List (List Bytes × Bool)) (c : List Bytes) (h : (c, true) ∈ l) :
+    (c, true) ∈ l.map (fun v => if v.2 then v else (idents ++ v.1, root)) :=
+  List.mem_map.mpr ⟨(c, true), h, by simp⟩
+
+mutual
+theorem dc_path (p : PathOp) : ∀ c ∈ dcPath p, (c, true) ∈ apPath p := by
+  cases p with
+  | mk inv root isF me ops us =>
+    intro c hc
+    unfold dcPath at hc
+    unfold apPath
+    cases ops with
+    | nil => simp [dcParts] at hc
+    | cons o os =>
+      rcases List.mem_append.mp hc with h1 | h2
+      · cases root with
+        | false => simp at h1
+        | true =>
+          simp only [List.isEmpty_cons, Bool.not_false, Bool.and_self, if_true, List.mem_singleton] at h1
+          subst h1
+          simpa using apParts_idents_mem (o :: os) true []
+      · exact dc_parts (o :: os) root [] c h2
+termination_by structural p
+theorem dc_parts (ops : List PathPart) (root : Bool) (idents : List Bytes) : ∀ c ∈ dcParts ops, (c, true) ∈ apParts root idents ops := by
+  cases ops with
+  | nil => intro c hc; simp [dcParts] at hc
+  | cons o os =>
+    intro c hc
+    cases o with
+    | ident name a b =>
+      unfold dcParts at hc
+      unfold apParts
+      exact dc_parts os root (idents ++ [name]) c hc
+    | filter lo a =>
+      unfold dcParts at hc
+      unfold apParts
+      rcases List.mem_append.mp hc with h1 | h2
+      · exact List.mem_append_left _ (filter_keeps_rooted idents root _ c (dc_logic lo c h1))
+      · exact List.mem_append_right _ (dc_parts os root idents c h2)
+    | func a b params d =>
+      unfold dcParts at hc
+      unfold apParts
+      rcases List.mem_append.mp hc with h1 | h2
+      · exact List.mem_append_left _ (dc_params params c h1)
+      · exact List.mem_append_right _ (dc_parts os root idents c h2)
+termination_by structural ops
+theorem dc_params (ps : List Param) : ∀ c ∈ dcParams ps, (c, true) ∈ apParams ps := by
+  cases ps with
+  | nil => intro c hc; simp [dcParams] at hc
+  | cons q qs =>
+    intro c hc
+    cases q with
+    | num d => unfold dcParams at hc; unfold apParams; exact dc_params qs c hc
+    | str s => unfold dcParams at hc; unfold apParams; exact dc_params qs c hc
+    | bool b => unfold dcParams at hc; unfold apParams; exact dc_params qs c hc
+    | path p =>
+      unfold dcParams at hc; unfold apParams
+      rcases List.mem_append.mp hc with h1 | h2
+      · exact List.mem_append_left _ (dc_path p c h1)
+      · exact List.mem_append_right _ (dc_params qs c h2)
+    | logic l =>
+      unfold dcParams at hc; unfold apParams
+      rcases List.mem_append.mp hc with h1 | h2
+      · exact List.mem_append_left _ (dc_logic l c h1)
+      · exact List.mem_append_right _ (dc_params qs c h2)
+termination_by structural ps
+theorem dc_logic (l : LogicOp) : ∀ c ∈ dcLogic l, (c, true) ∈ apLogic l := by
+  cases l with
+  | mk inv isF ty ops us =>
+    intro c hc
+    unfold dcLogic at hc
+    unfold apLogic
+    exact dc_lparts ops c hc
+termination_by structural l
+theorem dc_lparts (ops : List LogicPart) : ∀ c ∈ dcLParts ops, (c, true) ∈ apLogicParts ops := by
+  cases ops with
+  | nil => intro c hc; simp [dcLParts] at hc
+  | cons o os =>
+    intro c hc
+    cases o with
+    | path p =>
+      unfold dcLParts at hc; unfold apLogicParts
+      rcases List.mem_append.mp hc with h1 | h2
+      · exact List.mem_append_left _ (dc_path p c h1)
+      · exact List.mem_append_right _ (dc_lparts os c h2)
+    | logic l =>
+      unfold dcLParts at hc; unfold apLogicParts
+      rcases List.mem_append.mp hc with h1 | h2
+      · exact List.mem_append_left _ (dc_logic l c h1)
+      · exact List.mem_append_right _ (dc_lparts os c h2)
+termination_by structural ops
+end
+
+/-- **C20, AddressedPaths, cover**: the chain of every `$` path of the query is equal to, or a prefix of, a returned path -/
+theorem dollar_chains_covered (t : TopOp) (c : List Bytes) (hc : c ∈ dcTop t) (hne : c ≠ []) : Covered c (addrTop t) := by
+  have hm : (c, true) ∈ apTop t := by
+    cases t with
+    | path p => exact dc_path p c hc
+    | logic l => exact dc_logic l c hc
+  exact addrTop_covers t (c, true) hm hne
+
+/-- a chain collected (unmarked) from a condition of a filter is collected from the path with the keys before the filter in front -/
+theorem apParts_filter_mem (lo : LogicOp) (us : Bytes) (rest : List PathPart) (root : Bool) (c : List Bytes) (hc : (c, false) ∈ apLogic lo) :
+    ∀ (pre : List PathPart) (idents : List Bytes),
+      (idents ++ identsOf pre ++ c, root) ∈ apParts root idents (pre ++ .filter lo us :: rest) := by
+  intro pre
+  induction pre with
+  | nil =>
+    intro idents
+    simp only [List.nil_append, identsOf, List.append_nil, apParts]
+    exact List.mem_append_left _ (List.mem_map.mpr ⟨(c, false), hc, by simp⟩)
   | cons o os ih =>
     intro idents
     cases o with
     | ident name a b =>
-      obtain ⟨ks, hk⟩ := ih (idents ++ [name])
-      exact ⟨name :: ks, by simpa [addrParts, List.append_assoc] using hk⟩
-    | filter lo a =>
-      obtain ⟨ks, hk⟩ := ih idents
-      exact ⟨ks, by simp only [addrParts]; exact List.mem_append_right _ hk⟩
-    | func a b params c =>
-      obtain ⟨ks, hk⟩ := ih idents
-      exact ⟨ks, by simp only [addrParts]; exact List.mem_append_right _ hk⟩
+      have := ih (idents ++ [name])
+      simpa [apParts, identsOf, List.append_assoc] using this
+    | filter lo' a =>
+      simp only [List.cons_append, apParts, identsOf]; exact List.mem_append_right _ (ih idents)
+    | func a b params d =>
+      simp only [List.cons_append, apParts, identsOf]; exact List.mem_append_right _ (ih idents)
+
+/-- **C20, AddressedPaths, filter conditions**: for a path `root.k1…kn[ …, @.j1…jm…, … ]…` the chain k1…kn j1…jm — the chain of the condition
+    prefixed by the chain of the collection it filters — is equal to, or a prefix of, a returned path -/
+theorem filter_condition_chain_covered (inv root isF me : Bool) (us us' : Bytes) (pre rest : List PathPart)
+    (linv lisF : Bool) (lty lus : Bytes) (conds : List LogicPart)
+    (cinv cisF cme : Bool) (cus : Bytes) (cops : List PathPart) (hne : cops ≠ []) (hk : identsOf pre ++ identsOf cops ≠ [])
+    (hmem : LogicPart.path (.mk cinv false cisF cme cops cus) ∈ conds) :
+    Covered (identsOf pre ++ identsOf cops)
+      (addrTop (.path (.mk inv root isF me (pre ++ .filter (.mk linv lisF lty conds lus) us' :: rest) us))) := by
+  -- the condition's own chain is collected from the group
+  have hcond : (identsOf cops, false) ∈ apLogic (.mk linv lisF lty conds lus) := by
+    unfold apLogic
+    have hp : (identsOf cops, false) ∈ apPath (.mk cinv false cisF cme cops cus) := by
+      unfold apPath
+      cases cops with
+      | nil => exact absurd rfl hne
+      | cons o os => simpa using apParts_idents_mem (o :: os) false []
+    clear hne
+    induction conds with
+    | nil => cases hmem
+    | cons q qs ih =>
+      rcases List.mem_cons.mp hmem with h | h
+      · subst h; unfold apLogicParts; exact List.mem_append_left _ hp
+      · cases q with
+        | path p' => unfold apLogicParts; exact List.mem_append_right _ (ih h)
+        | logic l' => unfold apLogicParts; exact List.mem_append_right _ (ih h)
+  have hall := apParts_filter_mem (.mk linv lisF lty conds lus) us' rest root (identsOf cops) hcond pre []
+  have hm : (identsOf pre ++ identsOf cops, root) ∈ apTop (.path (.mk inv root isF me (pre ++ .filter (.mk linv lisF lty conds lus) us' :: rest) us)) := by
+    unfold apTop apPath
+    cases pre with
+    | nil => simpa using hall
+    | cons o os => simpa using hall
+  exact addrTop_covers _ (_, root) hm hk
 
 #print axioms dedupPaths_covers
 #print axioms dedupPaths_from
 #print axioms dedupPaths_nodup
 #print axioms addrTop_nodup
 #print axioms addrTop_nonempty
-#print axioms addrParts_idents_mem
+#print axioms addrTop_from
+#print axioms addrTop_covers
+#print axioms apParts_idents_mem
+#print axioms dollar_chains_covered
+#print axioms filter_condition_chain_covered
 end Mp
